@@ -328,8 +328,12 @@ func (g *generator) next() *c07Input {
 		x = 70 + x%15
 	case "random":
 		x = x % 70
+	case "shape":
+		x = 330 + x%70
+	case "conc":
+		x = 400 + x%20
 	case "mutation":
-		x = 330 + x%670
+		x = 420 + x%580
 	}
 
 	switch {
@@ -381,6 +385,34 @@ func (g *generator) next() *c07Input {
 			in.src = src + "main()\n"
 		default:
 			in.Mode = "fragment"
+			in.src = src + "main()\n"
+		}
+
+		return in
+	}
+
+	if x < 400 {
+		src, kind := shapeRandom(rng)
+		in := &c07Input{Origin: "generated:shape", Op: kind, src: src, Mode: "run"}
+
+		switch y := rng.Intn(10); {
+		case y < 2:
+			in.Mode = "test"
+			in.src = strings.Replace(src, "func main() {", "@test \"shape\"\n{", 1)
+		case y < 4:
+			in.Mode = "server"
+			in.src = src + "main()\n"
+		}
+
+		return in
+	}
+
+	if x < 420 {
+		src, kind := concRandom(rng)
+		in := &c07Input{Origin: "generated:conc", Op: kind, src: src, Mode: "run", WdMs: 3000}
+
+		if rng.Intn(4) == 0 {
+			in.Mode = "server"
 			in.src = src + "main()\n"
 		}
 
@@ -745,7 +777,7 @@ var c07Probes = []struct{ key, mode, src string }{
 func TestC07(t *testing.T) {
 	r := vh.New("C07", "crash")
 	r.Rule = "inputs = token-level mutations (13 operators, 1-6 per input) of every .ego file under tests/, lib/packages, lib/services, examples and of programs from the shared generator verifh/gen (a quarter of the mutants), plus raw random bytes / ASCII / punctuation / token soup, " +
-		"plus 35 deep-nesting shapes, plus generated ill-typed statements (130 statement templates x 150 operand atoms: types, packages, functions, nil, collections where values are expected); each is run in one of 5 modes (run, fragment=piped stdin, test, server=admin.RunCodeHandler editor, console). " +
+		"plus 35 deep-nesting shapes, plus generated ill-typed statements (130 statement templates x 150 operand atoms: types, packages, functions, nil, collections where values are expected), composite literals of the wrong shape for declared struct/array/map types (120 directed + random), 40 concurrency crash shapes with real goroutines (close under a parked sender, double close, send after close, negative WaitGroup, foreign Unlock, panicking goroutines, @wait on blocked goroutines); each is run in one of 5 modes (run, fragment=piped stdin, test, server=admin.RunCodeHandler editor, console). " +
 		"distinct = distinct (mode, bytes); non-trivial = not byte-identical to an unmutated corpus file and non-empty."
 	r.Assume("the harness child (egorun / TestAction mirror / direct RunCodeHandler call) reaches the same compiler and VM code as the ego binary; every violation witness is re-run through the real binary and the result recorded")
 	r.Assume("a watchdog timeout (input still running after the per-input real-time limit) is not a verdict")
@@ -805,6 +837,10 @@ func TestC07(t *testing.T) {
 					r.Count("seed.verifh-gen", 1)
 				case strings.HasPrefix(in.Origin, "generated:illtyped"):
 					r.Count("seed.illtyped", 1)
+				case strings.HasPrefix(in.Origin, "generated:shape"):
+					r.Count("seed.shape", 1)
+				case strings.HasPrefix(in.Origin, "generated:conc"):
+					r.Count("seed.conc", 1)
 				case strings.HasPrefix(in.Origin, "random:"):
 					r.Count("seed.random", 1)
 				case strings.HasPrefix(in.Origin, "nest:"):
@@ -817,6 +853,8 @@ func TestC07(t *testing.T) {
 
 				if strings.HasPrefix(in.Op, "illtyped:") {
 					r.Count("op.illtyped", 1)
+				} else if strings.HasPrefix(in.Op, "shape:") || strings.HasPrefix(in.Op, "conc:") {
+					r.Count("op."+in.Op, 1)
 				} else {
 					for _, op := range strings.Split(in.Op, "+") {
 						r.Count("op."+op, 1)
@@ -935,6 +973,25 @@ func TestC07(t *testing.T) {
 			}
 
 			ins = append(ins, &c07Input{Name: fmt.Sprintf("nest-%02d", i), Mode: "run", Origin: fmt.Sprintf("nest:%s:%d", k, depth), Op: "nest", src: deepNest(k, depth), WdMs: wd})
+		}
+
+		// directed composite-literal shapes (each in run mode and in one more mode) and concurrency crash shapes
+		for i, st := range shapeStatements {
+			src := shapeProgram(st)
+			ins = append(ins, &c07Input{Name: fmt.Sprintf("shape-%03d", i), Mode: "run", Origin: "generated:shape", Op: "shape:directed", src: src})
+
+			switch i % 3 {
+			case 0:
+				ins = append(ins, &c07Input{Name: fmt.Sprintf("shape-%03d-t", i), Mode: "test", Origin: "generated:shape", Op: "shape:directed", src: strings.Replace(src, "func main() {", "@test \"shape\"\n{", 1)})
+			case 1:
+				ins = append(ins, &c07Input{Name: fmt.Sprintf("shape-%03d-s", i), Mode: "server", Origin: "generated:shape", Op: "shape:directed", src: src + "main()\n"})
+			}
+		}
+
+		for i := range concPrograms {
+			for j, pr := range [][2]int{{0, 2}, {1, 3}} {
+				ins = append(ins, &c07Input{Name: fmt.Sprintf("conc-%02d-%d", i, j), Mode: "run", Origin: "generated:conc", Op: "conc:" + concPrograms[i].name, src: concProgram(i, pr[0], pr[1]), WdMs: 3000})
+			}
 		}
 
 		for i, p := range c07Probes {
